@@ -2,6 +2,8 @@ package future
 
 import (
 	"sync"
+
+	"go.minekube.com/gate/pkg/internal/verifhook"
 )
 
 // Future is a struct that holds a value of type T, a slice of callbacks to be called when the value is set,
@@ -22,11 +24,13 @@ func New[T any]() *Future[T] {
 func (f *Future[T]) ThenAccept(callback func(T)) *Future[T] {
 	f.mu.Lock()
 	defer f.mu.Unlock()
+	verifhook.Point("fut.accept.locked")
 
 	// If the Future is already completed, call the callback
 	if f.completed {
 		callback(f.value)
 	} else {
+		verifhook.Point("fut.accept.pending")
 		// Append the new callback to the slice of callbacks
 		f.callback = append(f.callback, callback)
 	}
@@ -49,6 +53,7 @@ func ThenCompose[T any, U any](f *Future[T], callback func(T) *Future[U]) *Futur
 func (f *Future[T]) Complete(value T) *Future[T] {
 	f.mu.Lock()
 	defer f.mu.Unlock()
+	verifhook.Point("fut.complete.locked")
 
 	// Check if the Future is already completed
 	if f.completed {
@@ -56,8 +61,10 @@ func (f *Future[T]) Complete(value T) *Future[T] {
 	}
 
 	// Set the value and call the callbacks
+	verifhook.Point("fut.complete.first")
 	f.value = value
 	f.completed = true
+	verifhook.Point("fut.complete.run")
 	for _, fn := range f.callback {
 		fn(value)
 	}
